@@ -296,7 +296,19 @@ type Out struct {
 	Impl  *os.File
 	N     int
 	Hist  map[string]int
+	// answers that are rendered later (AddLater): lines held back since the oldest pending one
+	buf     []string
+	pending []pendingLine
 }
+
+type pendingLine struct {
+	f   func() string
+	idx int // position in buf
+	at  int // N when it was added
+}
+
+// laterWindow: how many more cases are recorded before a deferred answer is rendered.
+const laterWindow = 300
 
 // NewOut opens cases.txt / impl.txt in dir.
 func NewOut(dir string) *Out {
@@ -315,13 +327,53 @@ func NewOut(dir string) *Out {
 // Add records one case (tab-separated fields), what the implementation answered and a histogram class.
 func (o *Out) Add(class string, impl string, fields ...string) {
 	fmt.Fprintln(o.Cases, strings.Join(fields, "\t"))
-	fmt.Fprintln(o.Impl, impl)
+	if len(o.pending) == 0 {
+		fmt.Fprintln(o.Impl, impl)
+	} else {
+		o.buf = append(o.buf, impl)
+	}
 	o.N++
 	o.Hist[class]++
+	o.tick(false)
+}
+
+// AddLater records a case whose answer is rendered only after laterWindow more cases (or at the end):
+// what the library handed out — a payload, a frame, a text — must still be what it was when other
+// calls have been made in the meantime. f must hold on to the objects themselves, not to copies.
+func (o *Out) AddLater(class string, f func() string, fields ...string) {
+	fmt.Fprintln(o.Cases, strings.Join(fields, "\t"))
+	o.buf = append(o.buf, "")
+	o.pending = append(o.pending, pendingLine{f: f, idx: len(o.buf) - 1, at: o.N})
+	o.N++
+	o.Hist[class]++
+	o.tick(false)
+}
+
+func (o *Out) tick(all bool) {
+	for len(o.pending) > 0 && (all || o.N-o.pending[0].at >= laterWindow) {
+		p := o.pending[0]
+		o.buf[p.idx] = Safe(p.f)
+		o.pending = o.pending[1:]
+	}
+	// write out what no longer waits for an earlier line
+	upto := len(o.buf)
+	if len(o.pending) > 0 {
+		upto = o.pending[0].idx
+	}
+	if upto > 0 {
+		for _, l := range o.buf[:upto] {
+			fmt.Fprintln(o.Impl, l)
+		}
+		o.buf = append([]string(nil), o.buf[upto:]...)
+		for i := range o.pending {
+			o.pending[i].idx -= upto
+		}
+	}
 }
 
 // Close flushes and writes the histogram.
 func (o *Out) Close(dir string) {
+	o.tick(true)
 	o.Cases.Close()
 	o.Impl.Close()
 	h, _ := os.Create(dir + "/hist.txt")
